@@ -496,13 +496,18 @@ def _gen_query(rng, cells, k):
     return [o, k]
 
 
+def _valid_areas(cells):
+    """every module has a non-zero allocated area (otherwise the constructor raises ZeroDivisionError)"""
+    return all(mod_area(cells, m) != 0 for m in {m for c in cells for m, _ in c["alloc"]})
+
+
 def gen_hist_case(rng, template=None):
     """A history: allocation + calls on shared objects.  The motifs are chosen so that every kind of call is followed,
     on the SAME object, by an in-place flag change and by every other kind of call (also with other arguments), and so
     that flags are changed through a derived allocation sharing the cell."""
     while True:
         kind, cells = gen_alloc(rng)
-        if len(cells) <= 9:
+        if len(cells) <= 9 and (_valid_areas(cells) or rng.random() < 0.1):
             break
     if rng.random() < 0.6 and len(cells) > 1:       # non-uniform depths make uniform_refinement_depth do something
         for c in cells:
@@ -529,15 +534,25 @@ def gen_hist_case(rng, template=None):
         m = rng.choice(motifs)
         k = pick_k()
         if m == "stale":
-            # any call, then a flag change on the same object, then any call again (a memo of the first call would be stale)
-            first = rng.choice(["q", "q", "t", "t", "t"])
-            hops.append(_gen_query(rng, cells, k) if first == "q" else trans(k))
-            for _ in range(rng.choice([1, 1, 2])):
+            # any call, then flag changes on the same object, then the same call again or any other call
+            # (whatever the first call remembered about the object would now be stale)
+            first = _gen_query(rng, cells, k) if rng.random() < 0.4 else trans(k)
+            hops.append(first)
+            for _ in range(rng.choice([1, 2, 2, 3])):
                 hops.append(setfixed(k))
-            second = rng.choice(["t", "t", "t", "q", "both"])
-            if second in ("q", "both"):
+            r = rng.random()
+            if r < 0.45:
+                if first[0] == "apply":
+                    hops.append(trans(k, list(first[2])))
+                elif first[0] == "mbr":
+                    hops += [list(first), trans(k, ["refine", first[2], rng.choice([1, 1, 2])])]
+                else:
+                    hops += [list(first), trans(k)]
+            elif r < 0.6:
                 hops.append(_gen_query(rng, cells, k))
-            if second in ("t", "both"):
+            else:
+                if rng.random() < 0.3:
+                    hops.append(_gen_query(rng, cells, k))
                 hops.append(trans(k))
         elif m == "shared":
             # derive b from a, flag a cell through b (or through a), then call both
@@ -596,7 +611,7 @@ def gen_hist_template(rng, idx):
     tk = TKINDS[(idx // len(QKINDS)) % len(TKINDS)]
     while True:
         kind, cells = gen_alloc(rng)
-        if not 2 <= len(cells) <= 8:
+        if not 2 <= len(cells) <= 8 or not _valid_areas(cells):
             continue
         for c in cells:
             c["depth"] = rng.choice([0, 0, 1, 2])
